@@ -939,6 +939,14 @@ impl ContinuityStore {
         if summary_markdown.is_none() && summary_artifact_id.is_none() {
             return Err("handoff requires summary_markdown and/or summary_artifact_id".to_string());
         }
+        if let Some(artifact_id) = summary_artifact_id.as_deref() {
+            // A caller-supplied summary must resolve (same rule as compaction checkpoints).
+            if !crate::handoff_context_bundle::artifact_exists(&self.workspace_root, artifact_id) {
+                return Err(format!(
+                    "handoff summary_artifact_id not found: {artifact_id}"
+                ));
+            }
+        }
         if from_message_id.is_some() && from_seq.is_some() {
             return Err("handoff requires only one of from_message_id or from_seq".to_string());
         }
